@@ -187,13 +187,13 @@ Proof.
   rewrite (eval_horner O L). apply Ng_peval.
 Qed.
 
-Lemma interpolate_unfold dbg xs ys rlz : length xs <= length ys -> (dbg = true -> length xs = length ys) ->
+Lemma interpolate_unfold dbg xs ys rlz : (dbg = true -> length xs = length ys) ->
   interpolate O dbg xs ys rlz =
   (result <- for_up 0 (length xs) (interp_outer_body (map (Ng xs) (seq 0 (length xs))) ys (dens xs))
                (repeat zero (length xs));;
    Ok (if rlz then remove_leading_zeros O result else result)).
 Proof.
-  intros Hle Hd. unfold interpolate, interpolate_gen.
+  intros Hd. unfold interpolate, interpolate_gen.
   assert (Hc : dbg && negb (length xs =? length ys) = false).
   { destruct dbg; [|reflexivity]. rewrite (proj2 (Nat.eqb_eq _ _) (Hd eq_refl)). reflexivity. }
   rewrite Hc. rewrite (poly_from_roots_spec O). cbn [bind].
@@ -201,20 +201,27 @@ Proof.
   reflexivity.
 Qed.
 
-(* no panic whenever the lengths agree (duplicates in xs allowed); value of the result as a sum of Lagrange terms *)
-Lemma interpolate_ok dbg xs ys : length ys = length xs ->
+(* no panic whenever the lengths agree (duplicates in xs allowed); value of the result as a sum of Lagrange terms.
+   Release profile (dbg = false): ys may be longer than xs, the extra values are ignored. *)
+Lemma interpolate_ok_gen dbg xs ys : length xs <= length ys -> (dbg = true -> length xs = length ys) ->
   exists p, interpolate O dbg xs ys false = Ok p /\ length p = length xs /\
             interpolate O dbg xs ys true = Ok (remove_leading_zeros O p) /\
             forall x, peval p x = gsum (term xs ys (dens xs) x) (length xs).
 Proof.
-  intros H.
-  destruct (interp_outer xs ys (dens xs) ltac:(lia) (dens_length xs) zero (length xs) (le_n _))
+  intros H Hd.
+  destruct (interp_outer xs ys (dens xs) H (dens_length xs) zero (length xs) (le_n _))
     as (p & Hp & Hl & _).
-  exists p. rewrite !interpolate_unfold by (intros; lia). rewrite Hp. cbn [bind].
+  exists p. rewrite !interpolate_unfold by assumption. rewrite Hp. cbn [bind].
   repeat split; auto.
-  intros x. destruct (interp_outer xs ys (dens xs) ltac:(lia) (dens_length xs) x (length xs) (le_n _))
+  intros x. destruct (interp_outer xs ys (dens xs) H (dens_length xs) x (length xs) (le_n _))
     as (p2 & Hp2 & _ & Hv). rewrite Hp in Hp2. inversion Hp2; subst. exact Hv.
 Qed.
+
+Lemma interpolate_ok dbg xs ys : length ys = length xs ->
+  exists p, interpolate O dbg xs ys false = Ok p /\ length p = length xs /\
+            interpolate O dbg xs ys true = Ok (remove_leading_zeros O p) /\
+            forall x, peval p x = gsum (term xs ys (dens xs) x) (length xs).
+Proof. intros H. apply interpolate_ok_gen; intros; lia. Qed.
 
 Lemma interpolate_total_iff xs ys rlz : interpolate O true xs ys rlz <> Panic <-> length xs = length ys.
 Proof.
@@ -222,6 +229,29 @@ Proof.
   - intros H. unfold interpolate, interpolate_gen in H. destruct (Nat.eqb_spec (length xs) (length ys)); auto.
     simpl in H. congruence.
   - intros H. destruct (interpolate_ok true xs ys (eq_sym H)) as (p & H1 & _ & H2 & _).
+    destruct rlz; [rewrite H2|rewrite H1]; discriminate.
+Qed.
+
+Lemma for_up_add {St} (body : nat -> St -> Result St) i n : forall m s,
+  for_up i (n + m) body s = bind (for_up i n body s) (fun s' => for_up (i + n) m body s').
+Proof.
+  induction m as [|m IH]; intros s.
+  - rewrite Nat.add_0_r. destruct (for_up i n body s); reflexivity.
+  - rewrite Nat.add_succ_r, for_up_snoc, IH. destruct (for_up i n body s) as [s'|]; [|reflexivity].
+    cbn [bind]. rewrite for_up_snoc. now rewrite Nat.add_assoc.
+Qed.
+
+(* release profile (no debug_assert): panics exactly when ys is shorter than xs (at `ys[i]`) *)
+Lemma interpolate_release_total_iff xs ys rlz : interpolate O false xs ys rlz <> Panic <-> length xs <= length ys.
+Proof.
+  split.
+  - intros H. destruct (Nat.le_gt_cases (length xs) (length ys)) as [|Hlt]; auto. exfalso. apply H.
+    rewrite interpolate_unfold by discriminate.
+    replace (length xs) with (length ys + S (length xs - length ys - 1)) at 1 by lia.
+    rewrite for_up_add.
+    destruct (for_up 0 (length ys) _ _) as [s'|]; [|reflexivity]. cbn [bind for_up].
+    unfold interp_outer_body at 1. rewrite (get_panic ys) by lia. reflexivity.
+  - intros H. destruct (interpolate_ok_gen false xs ys H ltac:(discriminate)) as (p & H1 & _ & H2 & _).
     destruct rlz; [rewrite H2|rewrite H1]; discriminate.
 Qed.
 
